@@ -11,6 +11,7 @@ import (
 	"time"
 
 	"verifsim/core"
+	"verifsim/refkrb/der"
 	"verifsim/refkrb/rcrypto"
 	"verifsim/refkrb/rk"
 )
@@ -316,6 +317,16 @@ func (m *Minter) Mint(spec ReqSpec, s time.Time, skew time.Duration, r *core.Rng
 		tkt.SName = rk.PrincipalName{Type: 1, Names: nil}
 	}
 	tr.TicketIntact = mutateCipher(&tkt.Enc.Cipher, ds, "tkt", r)
+	if hasDefect(ds, "tkt-forged-plain-appended") != nil {
+		// a forger without the service key: the enc-part is noise, and a plaintext EncTicketPart of
+		// his own making (with the session key he seals the authenticator with) is appended to the
+		// ticket's SEQUENCE, where a lenient decoder may pick it up as "the decrypted part"
+		tkt.Enc.Cipher = r.Bytes(len(tkt.Enc.Cipher))
+		if n, _, err := der.Parse(tplain); err == nil {
+			tkt.Extra = append([]byte{}, n.Content...)
+		}
+		tr.TicketIntact = false
+	}
 	tr.OuterSName, tr.OuterRealm, tr.OuterEtype = tkt.SName.Names, tkt.Realm, tkt.Enc.Etype
 	if tkt.Enc.HasKvn {
 		tr.OuterKvno = tkt.Enc.Kvno
